@@ -324,4 +324,15 @@ def run(facts, rep, tier, ctx):
         for o in scratch.obligations:
             if o["rule"] in ("R20.1", "R20.4") and o["fn"].startswith("<" + w_.overlay) and o["fn"].endswith("::read_dir"):
                 rep.ob(("A/" if w_.asyncw else "") + "R10.4e", o["fn"], o["key"].split("|")[2], o["ok"], o["detail"], o["loc"])
+    # R10.10 "re-creation starts fresh": the overlay clears the marker as soon as the write layer's create_file returns, so the
+    # in-memory write layer must have the (empty) entry in place by then — created under its own lock, not later by the writer
+    from . import c01 as _c01
+    for w_ in (ws, wa):
+        if not w_.present():
+            continue
+        scratch = Report("m")
+        _c01.table_m(facts, scratch, "M", "Mk", self_ty=w_.memory, trait=w_.trait.rsplit("::", 1)[1], ops_filter=("create_file",))
+        for o in scratch.obligations:
+            if o["rule"] == "M":
+                rep.ob(("A/" if w_.asyncw else "") + "R10.10", o["fn"], o["key"].split("|")[2], o["ok"], o["detail"], o["loc"])
     rep.assume("the reserved names ('.whiteout', '*_wo') are not used by callers (excluded by the property)")
